@@ -23,6 +23,9 @@ CLAIMED = {
  "C07": ("ledger", "TLC model checking of RevisionStep/NoDoubleUse on contract configurations of Ledger.tla + simulated and exhaustively enumerated contract life-cycles replayed on the real code with payout comparison; StorageProof.tla (tree, honest and dishonest proofs, transcribed verifiers) with every (leaves, challenged leaf, era/version, proof kind) executed on real chains; challenge index validated by TLC over BigNat",
          "Payout outputs of every resolved contract equal those of its latest accepted revision, once; forbidden revisions, dishonest proofs and second resolutions are rejected; honest storage proofs are accepted in every era except the documented middle-era quirk, proofs of another leaf / altered data / wrong length are rejected; the challenged leaf is seed mod leaves. Found and fixed the v1 short-proof soundness defect.",
          LEDGER_NOTE, "DESIGN.md 4.6, 5/C07"),
+ "C04": ("acc", "Membership.tla (Member(acc, e) <=> e is exactly a live leaf with its own path; probe catalogue over bounded forests incl. reverted-branch and never-created elements) model-checked; every TLC probe and reflection-derived field mutation asked of the real code through the shim, ValidateTransactionElements, ValidateV2Transaction, ValidateBlock supplements and used parents, on synthetic forests and on real ledger chains",
+         "Only the genuine live element with exactly its field values, position and proof is accepted; every single-field mutation (enumerated by reflection over the element structs), foreign proof or position, spent, reverted-branch or never-created element is rejected, through every public door, with controls that show the rejection is due to the element.",
+         "Trusted: collision-free hashing, the verif export shim (forwards only), hterm, TLC. Attestation elements only through the shim.", "DESIGN.md 4.2, 5/C04"),
  "C05": ("acc", "TLC model checking of Accumulator.tla (algorithm transcription = naive forest on all bounded forests, apply/revert) + one implementation test per TLC transition replayed through the real accumulator (export shim) with symbolic terms evaluated by the real hashes + TLC -simulate histories + real chains through the public API",
          "Roots, leaf count and every tracked proof (old, updated, added, spent) equal the naive Merkle forest after every apply and revert for all forests within the bound; every TLC transition is replayed on real elements of all six kinds; beyond the bound the spec's definitions are evaluated over real leaf hashes for sizes to 2^12 and apply/revert interleavings to depth 12; public-API chains check ForEachTreeNode and proof maintenance.",
          "Trusted: collision-free hashing, hterm term evaluator, the verif export shim (forwards only), TLC.", "DESIGN.md 4.2, 5/C05"),
